@@ -657,11 +657,11 @@ where
                                 local_next.push(h2);
                             }
                             let sk = sample_key(seed, k as u64);
-                            if sk < (1u64 << 46) {
+                            acc.maybe_sample(sk, || {
                                 let mut t = trace.clone();
                                 t.push(format!("{op:?}"));
-                                acc.sample(sk, json!({"init": init_desc, "history": t, "counts": [s2.m_atoms, s2.m_pairs, s2.m_heap]}));
-                            }
+                                json!({"init": init_desc, "history": t, "counts": [s2.m_atoms, s2.m_pairs, s2.m_heap]})
+                            });
                         }
                     }
                 }
